@@ -18,7 +18,7 @@ Init == la = 1 /\ lb = 1 /\ ep = "" /\ live = FALSE /\ cnt = [compared |-> 0, ep
 
 Report(fails) == IF fails = {} THEN TRUE ELSE PrintT(<< "FAIL", la, ep, fails >>)
 
-IsBegin(e) == e.e = "begin"
+IsBegin(e) == e.e \in {"begin", "thread"}       \* episode start, or start of the section of one thread's log
 
 (* skip the rest of a failed episode in one log: advance to its next begin *)
 RECURSIVE NextBegin(_, _)
@@ -27,10 +27,17 @@ NextBegin(log, k) == IF k > Len(log) \/ IsBegin(log[k]) THEN k ELSE NextBegin(lo
 Step ==
     /\ la <= Len(LogA) /\ lb <= Len(LogB)
     /\ LET a == LogA[la]  b == LogB[lb] IN
-       IF IsBegin(a) /\ IsBegin(b) THEN
-            /\ Report(IF a.id # b.id THEN {"UNKNOWN-EVENT"} ELSE {})
+       IF IsBegin(a) /\ IsBegin(b) /\ a.id = b.id THEN
             /\ ep' = a.id /\ live' = TRUE /\ la' = la + 1 /\ lb' = lb + 1
             /\ cnt' = [cnt EXCEPT !.episodes = @ + 1]
+       ELSE IF IsBegin(a) /\ IsBegin(b) THEN
+            (* one log lost the rest of a thread's episodes (its process died): they count as failed; resynchronise *)
+            /\ Report(IF a.e = "thread" /\ b.e = "thread" THEN {"UNKNOWN-EVENT"} ELSE {Prop})
+            /\ ep' = IF a.e = "begin" THEN a.id ELSE b.id
+            /\ live' = FALSE
+            /\ la' = IF a.e = "begin" THEN NextBegin(LogA, la + 1) ELSE la
+            /\ lb' = IF a.e = "begin" THEN lb ELSE NextBegin(LogB, lb + 1)
+            /\ UNCHANGED cnt
        ELSE IF ~live \/ IsBegin(a) \/ IsBegin(b) \/ a.e = "crash" \/ b.e = "crash" \/ a # b THEN
             (* a difference, a crash, or one log shorter than the other inside this episode *)
             /\ Report(IF live THEN {Prop} \cup (IF a.e = "crash" \/ b.e = "crash" THEN {"CRASH"} ELSE {}) ELSE {})
@@ -45,7 +52,7 @@ Step ==
 (* one log ended inside an episode the other continues *)
 Ragged ==
     /\ (la > Len(LogA)) # (lb > Len(LogB))
-    /\ Report(IF live THEN {Prop} ELSE {"UNKNOWN-EVENT"})
+    /\ Report(IF live \/ (la <= Len(LogA) /\ IsBegin(LogA[la])) \/ (lb <= Len(LogB) /\ IsBegin(LogB[lb])) THEN {Prop} ELSE {})
     /\ la' = Len(LogA) + 1 /\ lb' = Len(LogB) + 1 /\ live' = FALSE /\ UNCHANGED << ep, cnt >>
 
 Done == la > Len(LogA) /\ lb > Len(LogB) /\ UNCHANGED vars
